@@ -8,7 +8,7 @@ PID_="$1"; PATCH="$(realpath "$2")"; shift 2
 ROOT="$(cd "$(dirname "$0")/.." && pwd)"
 S="/tmp/mut-$PID_-$$"
 rm -rf "$S"; mkdir -p "$S"
-trap 'git -C /repo worktree remove --force "$S/repo" >/dev/null 2>&1 || true; rm -rf "$S"' EXIT
+trap 'git -C /repo worktree remove --force "$S/repo" >/dev/null 2>&1 || true; rm -rf "$S" "$ROOT/work/$PID_-mut$$" "$ROOT/work/$PID_-mut$$.json"' EXIT
 git -C /repo worktree add -q --detach "$S/repo" HEAD
 git -C "$S/repo" apply "$PATCH"
 mkdir -p "$S/harness"
